@@ -2,6 +2,8 @@
    Emulator side: task_op / task_event of Emu/EmuCoreDefs.v (src/emu/body.c, task.c, update_task of
    nosv/event.c and nanos6/event.c); spec: Emu/TaskSpecDefs.v. *)
 From Coq Require Import ZArith List Bool.
+From OV Require Import Emu.GuardsPre.
+From OV Require Gen.Guards_gen Proofs.GuardsTaskProofs.
 From OV Require Import Emu.EmuCoreDefs Emu.TaskSpecDefs Emu.TaskViewDefs Proofs.EmuCoreProofs Proofs.TaskProofs Proofs.EmuCoreWf
   Proofs.LabelDecode Proofs.TaskViewProofs.
 Import ListNotations.
@@ -191,3 +193,39 @@ Example C07_ex_views :
                 end) [3; 4; 5; 6; 7]%nat
   = [Some [0; 0; 0; 0; 0]; Some [1; 1234; 1; 1; 0]; Some [0; 0; 0; 0; 0]; Some [1; 1234; 1; 1; 0]; Some [0; 0; 0; 0; 0]].
 Proof. vm_compute. reflexivity. Qed.
+
+(* ---------------------------------------------------------------------------------------------
+   The tie to the source.  Gen/Guards_gen.v is regenerated on every run by translate/units/guards.py from
+   src/emu/body.c (body_execute, body_pause, body_resume, body_end, body_can_resurrect, body_can_pause,
+   body_get_running) and src/emu/task.c (task_execute, task_pause, task_resume, task_end, create_body,
+   task_is_parallel): one Gallina definition per C function, statement by statement, in the monad of
+   Emu/GuardsPre.v (body_find, body_create, DL_PREPEND/DL_DELETE on stack->top and the field accessors are
+   primitives with a hand-written meaning).  The theorem says the generated functions, called the way the
+   models' handlers call them (the body stack of model mdl of the current thread; the task found by its id in the
+   process of that thread, NULL when there is none; a non-zero body id for execute, as the handlers guarantee),
+   compute what the hand model task_op - the subject of C07_transition_iff and of the invariants above -
+   computes: the same accepted state, or both reject, and no NULL dereference.  No hypothesis on the state. *)
+Theorem C07_body_task_from_source : forall sx st who th me mdl tid bid,
+  nth_error (threads st) who = Some th -> nth_error (s_threads sx) who = Some me ->
+  let loom := ti_loom me in let pid := ti_pid me in
+  let stack := Some (who, mdl) in
+  let task := GuardsTaskProofs.task_ptr me mdl tid st in
+  (bid <> 0 ->
+   outcome_of (exec (Guards_gen.task_execute stack task bid) sx st) = outcome_of (task_op st who th loom pid mdl 120 tid bid)) /\
+  outcome_of (exec (Guards_gen.task_pause stack task bid) sx st) = outcome_of (task_op st who th loom pid mdl 112 tid bid) /\
+  outcome_of (exec (Guards_gen.task_resume stack task bid) sx st) = outcome_of (task_op st who th loom pid mdl 114 tid bid) /\
+  outcome_of (exec (Guards_gen.task_end stack task bid) sx st) = outcome_of (task_op st who th loom pid mdl 101 tid bid).
+Proof. exact GuardsTaskProofs.task_ops_eq. Qed.
+Print Assumptions C07_body_task_from_source.
+
+(* the generated functions evaluated on a pausable task: x p r e is accepted and leaves the body dead and the stack
+   empty; x x, x r, p (nothing runs), x e e and x p e are refused *)
+Example C07_ex_generated :
+  match GuardsTaskProofs.gen_ops [120; 112; 114; 101] with
+  | Ok s => (map (fun tk => map (fun b => (b_id b, GuardsPre.bstate_code (b_state b), b_on b)) (tk_bodies tk)) (tasks s),
+             map t_bstack (threads s))
+  | Err _ => ([], [])
+  end = ([[(1, 4, None)]], [[]]) /\
+  map (fun ops => outcome_of (GuardsTaskProofs.gen_ops ops)) [[120; 120]; [120; 114]; [112]; [120; 101; 101]; [120; 112; 101]]
+  = [Reject; Reject; Reject; Reject; Reject].
+Proof. vm_compute. split; reflexivity. Qed.
